@@ -1,4 +1,5 @@
-import EdpVerif.Generated.Misc
+import EdpVerif.Generated.MiscC09
+import EdpVerif.Generated.MiscState
 import EdpVerif.Lemmas.Frag
 import EdpVerif.Generated.Tags
 /-
